@@ -27,7 +27,9 @@ def profile(r, tier, index):
         # names that only differ in case, and names in which '_' (an SQL LIKE wildcard) stands where another name has a letter
         "name_alphabet": r.choice((["a", "b", "a b", "x.y", "p+q", "[z]"], ["a", "A", "a_b", "axb", "a b", "x.y"], ["a", "A", "b", "B", "a_b", "aXb"],
                                     # names that begin like INBOX are mailboxes of their own; "Inbox" as a first part is INBOX
-                                    ["a", "inboxes", "Inbox", "inbox-old", "INBOX.x", "b"])),
+                                    ["a", "inboxes", "Inbox", "inbox-old", "INBOX.x", "b"],
+                                    # quoted specials: what is created is what is listed
+                                    ["a", 'q"u', "b\\s", "a b", 'x\\"y', "b"])),
     }
 
 
